@@ -31,8 +31,9 @@ pub const REAL_COMPONENTS: &[&str] = &[
     "all ironplc crates (parser, analyzer, dsl, plc2plc, plc2x incl. cli.rs, project.rs, source.rs, lsp.rs, lsp_project.rs)",
     "lsp-server Connection: initialize handshake, message loop, handle_shutdown",
     "crossbeam channels (capacity 0)",
-    "std::fs on tmpfs with real kernel errors",
+    "std::fs on tmpfs with real kernel errors (ENOENT, ELOOP, EISDIR, ENOTDIR, ENXIO and - in a simulated process that has given up root - EACCES)",
     "every simulated command-line process is a forked child of the worker (fresh process-global state, isolated crashes) whose entry point runs on a fresh thread",
+    "every language-server incarnation (the history's servers, before and after each simulated crash, and every fresh reference server of the oracles) is a forked child of its own",
     "codespan-reporting rendering and println!/print! output (stdout and stderr of the worker are capture files that are read back per simulated process)",
     "encoding_rs decoding",
 ];
